@@ -39,12 +39,18 @@ static void runClosure(const Opt &o, Ev &ev) {
     }
 }
 static void runSequences(const Opt &o, Ev &ev) {
-    int depth = o.quick() ? 3 : 4;
-    ExploreStats st; std::vector<Op> path;
-    std::string m = sequences(depth, 1, 4, chk, st, &path, o.worker, o.workers, ntPred, ev);
-    ev.eval(st.transitions); ev.ntCount(st.nontrivial); ev.label("sequence-steps", st.transitions);
-    if (!m.empty()) { fail(o, ev, path, 2, m); return; }
-    ev.exhaustive[fmt("every operation sequence of length <= %d over the alphabet of all three register groups (4 values per register, 4 error codes) from the initial state", depth)] = true;
+    // quick: every sequence of length <= 3 over the 4-values-per-register alphabet; thorough: length <= 4 over that
+    // alphabet and length <= 5 over the 2-values-per-register alphabet
+    struct Job { int depth, level, npush; };
+    std::vector<Job> jobs;
+    if (o.quick()) jobs.push_back({3, 1, 4}); else { jobs.push_back({4, 1, 4}); jobs.push_back({5, 0, 2}); }
+    for (auto &j : jobs) {
+        ExploreStats st; std::vector<Op> path;
+        std::string m = sequences(j.depth, j.level, j.npush, chk, st, &path, o.worker, o.workers, ntPred, ev);
+        ev.eval(st.transitions); ev.ntCount(st.nontrivial); ev.label(fmt("sequence-steps-depth%d-level%d", j.depth, j.level), st.transitions);
+        if (!m.empty()) { fail(o, ev, path, 2, m); return; }
+        ev.exhaustive[fmt("every operation sequence of length <= %d over the alphabet of all three register groups (%d values per register, %d error codes) from the initial state", j.depth, j.level == 0 ? 2 : 4, j.npush)] = true;
+    }
 }
 static std::string bodyWalk(Src &s, Ev &ev) {
     int queue = (int) s.range(1, 4);
@@ -63,7 +69,7 @@ int main(int argc, char **argv) {
     subs.push_back({"ops", [](const Opt &, Ev &) {}, replayOps});
     subs.push_back({"closure", runClosure, replayOps});
     subs.push_back({"sequences", runSequences, replayOps});
-    subs.push_back({"walk", [](const Opt &o, Ev &ev) { runRandom(o, ev, "walk", 650, o.quick() ? 1500 : 15000, bodyWalk); },
+    subs.push_back({"walk", [](const Opt &o, Ev &ev) { runRandom(o, ev, "walk", 650, o.quick() ? 1500 : 60000, bodyWalk); },
                     [](const Replay &r) { auto v = r.choices(); Src s(v); Ev e; return bodyWalk(s, e); }});
     return mainWith(argc, argv, "C11", subs);
 }
